@@ -19,6 +19,7 @@ class Ty(object):
         if k in ('Text', 'Doc'): return Doc
         if k == 'Fn': return Fn
         if k == 'Val': return Val
+        if k == 'Comb': return CombS
         if k == 'Obj': return ObjSort(self.args[0])
         if k == 'List': return z3.SeqSort(self.args[0].sort())
         if k == 'Tuple':
@@ -40,6 +41,8 @@ def DictSort(ks, vs):
 class _T(object):
     Int, Real, Bool, Str, Text, Fn, Val = Ty('Int'), Ty('Real'), Ty('Bool'), Ty('Str'), Ty('Text'), Ty('Fn'), Ty('Val')
     Doc = Ty('Doc')          # in-out document object (StringIO, file)
+    Any = Ty('Any')          # parameter of a trusted / assumed contract whose value the contract does not speak about
+    Comb = Ty('Comb')        # a repository function of two callables returning a callable, passed as a value
     NoneT = Ty('None')
     @staticmethod
     def Obj(cls): return Ty('Obj', cls)
@@ -209,6 +212,7 @@ def wrap(ty, z):
     if k == 'Obj': return Obj(z, ty.args[0])
     if k == 'List': return SeqV(z, ty.args[0])
     if k == 'Val': return Sc(z, 'val')
+    if k == 'Comb': return Sc(z, 'comb')
     if k == 'Tuple': return TupTerm(z, ty.args)
     if k == 'Dict':
         S = z.sort()
